@@ -370,6 +370,15 @@ func c18(ctx *Ctx) (*Outcome, error) {
 				inv: &cli.Inv{Files: []batch.File{{Path: "shape.json", Data: []byte(sh.text)}}, Args: args}})
 		}
 	}
+	for _, sh := range defaultShapes() {
+		for ai, extra := range [][]string{nil, {"--only-models"}, {"--extra-imports", "--min-sized-ints"}} {
+			args := append(append([]string{"-p", "valid", "-o", "out/gen.go"}, extra...), "shape.json")
+			// class prefix "defaults:" - whether the emitted default literal is valid Go is C01/C09's business
+			// (recorded finding default-ill-typed); here: output or diagnostic, never a panic or hang
+			jobs = append(jobs, &c18job{class: "defaults:" + sh.class, label: fmt.Sprintf("%s (args %d)", sh.label, ai), outFile: "out/gen.go",
+				inv: &cli.Inv{Files: []batch.File{{Path: "shape.json", Data: []byte(sh.text)}}, Args: args}})
+		}
+	}
 	// pinned witnesses of recorded findings
 	for _, w := range c18Witnesses() {
 		jobs = append(jobs, w)
@@ -479,7 +488,7 @@ func c18(ctx *Ctx) (*Outcome, error) {
 	o.Coverage = map[string]any{
 		"evaluations":           decided + inprocRuns + straceRuns,
 		"distinct_nontrivial":   len(classes),
-		"rule":                  "fault enumeration over real CLI runs in a sandbox directory whose output files are pre-seeded with sentinel bytes (tree snapshot before/after, stdout, stderr, exit status, rusage): (1) every fault kind {unknown type, $ref to missing definition / missing file / unsupported scheme / non-definition pointer / missing definition in another file / unparsable file, empty enum (typed and untyped), non-primitive enum values, integer enum with a string} injected at sampled positions {property, array items, definition, allOf branch, anyOf branch} at any depth of random valid schemas (JSON and YAML, file and stdout output); (2) byte-level faults (truncation, bit flip, byte deletion/insertion/duplication, random bytes, wrong keyword value type); (3) malformed flags and bad files; (3b) fault-free corpus through the all-runs oracle: random schemas over every generator feature x random options, and an enumerated family of allOf/anyOf/oneOf shapes (1-2 branches of 18 kinds incl. null elements x 9 positions x 4 option sets); (4) the same inputs through DoFile+Sources in-process under recover; (5) strace syscall-fault injection on output writes; oracle for must-fail runs: non-zero exit, diagnostic on stderr, empty stdout, no file created/modified/removed, no panic/fatal/signal, CPU limit not hit; for all runs: no panic/hang and no output on failure; distinct_nontrivial = distinct (fault kind, position kind) classes",
+		"rule":                  "fault enumeration over real CLI runs in a sandbox directory whose output files are pre-seeded with sentinel bytes (tree snapshot before/after, stdout, stderr, exit status, rusage): (1) every fault kind {unknown type, $ref to missing definition / missing file / unsupported scheme / non-definition pointer / missing definition in another file / unparsable file, empty enum (typed and untyped), non-primitive enum values, integer enum with a string} injected at sampled positions {property, array items, definition, allOf branch, anyOf branch} at any depth of random valid schemas (JSON and YAML, file and stdout output); (2) byte-level faults (truncation, bit flip, byte deletion/insertion/duplication, random bytes, wrong keyword value type); (3) malformed flags and bad files; (3b) fault-free corpus through the all-runs oracle: random schemas over every generator feature x random options, and an enumerated family of allOf/anyOf/oneOf shapes (1-2 branches of 18 kinds incl. null elements x 9 positions x 4 option sets), and a default keyword next to 27 kinds of schema (objects with every form of additionalProperties ...) x 12 default values x 4 positions x 3 option sets; (4) the same inputs through DoFile+Sources in-process under recover; (5) strace syscall-fault injection on output writes; oracle for must-fail runs: non-zero exit, diagnostic on stderr, empty stdout, no file created/modified/removed, no panic/fatal/signal, CPU limit not hit; for all runs: no panic/hang and no output on failure; distinct_nontrivial = distinct (fault kind, position kind) classes",
 		"samples":               samples,
 		"runs_by_fault":         byClass,
 		"must_fail_runs":        mustFail,
@@ -571,6 +580,51 @@ func compositionShapes() []compShape {
 				for _, pos := range positions {
 					out = append(out, compShape{class: "shape:" + kw + ":" + b.name + "@" + pos.name, label: fmt.Sprintf("%s %s list %d at %s", kw, b.name, li, pos.name), text: pos.text})
 				}
+			}
+		}
+	}
+	return out
+}
+
+// defaultShapes enumerates a default keyword next to every kind of schema (incl. objects with every form of
+// additionalProperties) x default values of every JSON kind x positions. Whether such a default is honoured is not the
+// point here (C09); the generator must come back with output or a diagnostic.
+func defaultShapes() []compShape {
+	kinds := []struct{ name, text string }{
+		{"string", `"type":"string"`}, {"integer", `"type":"integer","minimum":1`}, {"number", `"type":"number"`}, {"boolean", `"type":"boolean"`},
+		{"nullable-string", `"type":["string","null"]`}, {"null-first-integer", `"type":["null","integer"]`},
+		{"array", `"type":"array","items":{"type":"string"}`}, {"array-untyped-items", `"type":"array"`}, {"nullable-array", `"type":["null","array"],"items":{"type":"integer"}`},
+		{"object-props", `"type":"object","properties":{"a":{"type":"string"},"n":{"type":"integer"}}`},
+		{"object-addprops-true", `"type":"object","properties":{"a":{"type":"string"}},"additionalProperties":true`},
+		{"object-addprops-empty", `"type":"object","additionalProperties":{}`},
+		{"object-addprops-false", `"type":"object","properties":{"a":{"type":"string"}},"additionalProperties":false`},
+		{"object-addprops-typed", `"type":"object","additionalProperties":{"type":"integer"}`},
+		{"object-addprops-ref", `"type":"object","additionalProperties":{"$ref":"#/$defs/Obj"}`},
+		{"object-addprops-anyof", `"type":"object","properties":{"a":{"type":"string"}},"additionalProperties":{"anyOf":[{"type":"string"},{"type":"integer"}]}`},
+		{"object-addprops-multitype", `"type":"object","additionalProperties":{"type":["string","integer"]}`},
+		{"object-bare", `"type":"object"`},
+		{"enum", `"enum":["a","b"]`}, {"typed-enum", `"type":"string","enum":["a","b"]`}, {"mixed-enum", `"enum":["a",1,null]`},
+		{"ref-object", `"$ref":"#/$defs/Obj"`}, {"ref-prim", `"$ref":"#/$defs/Prim"`}, {"untyped", `"description":"anything"`},
+		{"format-date", `"type":"string","format":"date"`}, {"anyof", `"anyOf":[{"type":"string"},{"type":"object","properties":{"q":{"type":"string"}}}]`},
+		{"allof", `"allOf":[{"type":"object","properties":{"q":{"type":"string"}}}]`},
+	}
+	values := []struct{ name, text string }{
+		{"string", `"a"`}, {"int", `3`}, {"float", `1.5`}, {"bool", `true`}, {"null", `null`}, {"empty-array", `[]`}, {"array", `["x","y"]`}, {"int-array", `[1,2]`},
+		{"empty-object", `{}`}, {"object", `{"a":"x","n":1}`}, {"nested", `{"a":{"b":[1,{"c":null}]}}`}, {"date", `"2024-02-28"`},
+	}
+	defs := `"Obj":{"type":"object","properties":{"w":{"type":"integer"}}},"Prim":{"type":"string","maxLength":3}`
+	var out []compShape
+	for _, k := range kinds {
+		for _, v := range values {
+			sch := `{` + k.text + `,"default":` + v.text + `}`
+			positions := []struct{ name, text string }{
+				{"property", `{"type":"object","properties":{"p":` + sch + `},"$defs":{` + defs + `}}`},
+				{"definition", `{"type":"object","properties":{"p":{"$ref":"#/$defs/D"}},"$defs":{"D":` + sch + `,` + defs + `}}`},
+				{"items", `{"type":"object","properties":{"p":{"type":"array","items":` + sch + `}},"$defs":{` + defs + `}}`},
+				{"root", `{` + k.text + `,"default":` + v.text + `,"$defs":{` + defs + `}}`},
+			}
+			for _, pos := range positions {
+				out = append(out, compShape{class: "default-shape:" + k.name + "@" + pos.name, label: fmt.Sprintf("default %s on %s at %s", v.name, k.name, pos.name), text: pos.text})
 			}
 		}
 	}
